@@ -7,14 +7,18 @@ PARALLEL = False
 BATCH = 5000
 BUDGET_S = {'quick': 60, 'thorough': 900}
 RULE = ('emitter: all op sequences up to length L over a fixed alphabet (2 events, 2 senders, 3 '
-        'callbacks incl. a bound method and a `last` one, connect by name / explicit event, unconnect '
-        'by callback / sender / owner, reset, set_silent, nested silent contexts, emits with/without '
-        'single), then random longer ones; reporter: all histories up to length L over {increment, '
-        'set value, set maximum, set_complete, reset} on a small value grid, then random. '
-        'non-trivial = history containing an emit with >= 1 registered callback, or a reporter '
+        'callbacks incl. a bound method and a `last` one, connect by function name / explicit event, unconnect '
+        'by callback / sender / owner, reset, set_silent (also inside silent contexts), nested silent contexts, '
+        'emits with positional and keyword arguments, with/without single), then random longer ones (these '
+        'also with a connect that raises, single=False, senders that are equal but not identical); '
+        'event-name derivation from function names; reporter: all histories up to length L over {increment, '
+        'set value, set maximum, set_complete, reset} on a small value grid, then random (also with keyword '
+        'arguments). non-trivial = history containing an emit with >= 1 registered callback, or a reporter '
         'history with >= 1 completion')
-ASSUMPTIONS = ['callbacks are recording stubs returning their id; senders are plain objects compared by '
-               'identity; the Python call protocol (args/kwargs passing) is checked on the Python side']
+ASSUMPTIONS = ['callbacks are recording stubs: they record (identity, sender received, args, kwargs) and return '
+               'Spec.stubResult of what they received (1000*id + 10*sender + number of positional arguments); '
+               'what they received is compared with the calls of the Lean specification',
+               'the keyword arguments a reporter forwards are checked on the Python side']
 
 # emitter alphabet -----------------------------------------------------------------------------
 E_ALPHA = [
@@ -31,10 +35,20 @@ E_ALPHA = [
     dict(k='set_silent', b=False),
     dict(k='enter'),
     dict(k='exit'),
-    dict(k='emit', event=0, sender=0, single=False),
+    dict(k='emit', event=0, sender=0, single=False, args=[7, 3]),
     dict(k='emit', event=0, sender=1, single=False),
-    dict(k='emit', event=0, sender=0, single=True),
-    dict(k='emit', event=1, sender=1, single=False),
+    dict(k='emit', event=0, sender=0, single=True, args=[5]),
+    dict(k='emit', event=1, sender=1, single=False, kw=[['a', 2], ['b', 0]]),
+]
+# letters used by the random stream only
+E_EXTRA = [
+    dict(k='connect', event=0, sender=None, id=0, owner=None, last=False, fname='spam'),        # ValueError
+    dict(k='connect', event=1, sender=None, id=2, owner=None, last=False, fname='on_'),         # ValueError
+    dict(k='connect', event=1, sender=0, id=1, owner=None, last=True, fname='whatever', event_arg='e1'),
+    dict(k='emit', event=0, sender=0, single=0, args=[1, 2, 3], kw=[['x', 9]]),                  # single=False given
+    dict(k='emit', event=0, sender=1, single=True, args=[], kw=[['single_', 4]]),
+    dict(k='emit', event=1, sender=0, single=True),
+    dict(k='unconnect', items=[{'obj': 1}]),
 ]
 R_ALPHA = [dict(k='inc'), dict(k='complete'), dict(k='reset', m=None), dict(k='reset', m=1), dict(k='reset', m=2),
            dict(k='reset', m=0), dict(k='set', v=0), dict(k='set', v=1), dict(k='set', v=2), dict(k='set', v=3),
@@ -42,6 +56,8 @@ R_ALPHA = [dict(k='inc'), dict(k='complete'), dict(k='reset', m=None), dict(k='r
 
 
 def well_nested(ops):
+    """what Python itself enforces: a silent() context is left only after it was entered (set_silent may
+    occur anywhere, also inside a context: Props.emit_outcomes_any_nesting)"""
     d = 0
     for o in ops:
         if o['k'] == 'enter':
@@ -50,9 +66,32 @@ def well_nested(ops):
             if d == 0:
                 return False
             d -= 1
-        elif o['k'] == 'set_silent' and d != 0:
-            return False
     return True
+
+
+def norm(o):
+    """alphabet letter / stored case -> the full operation both sides see: function name and explicit event
+    of a connect; event name, positional and keyword argument tokens of an emit"""
+    o = dict(o)
+    if o['k'] == 'connect':
+        byname = o.pop('byname', False)
+        if 'fname' not in o:
+            o['fname'] = 'on_e%d' % o['event'] if byname else 'cb%d' % o['id']
+            o['event_arg'] = None if byname else 'e%d' % o['event']
+        o.setdefault('event_arg', None)
+    elif o['k'] == 'emit':
+        o['event'] = o['event'] if isinstance(o['event'], str) else 'e%d' % o['event']
+        o.setdefault('args', [])
+        kw = [list(x) for x in o.get('kw', [['key', 6]])]
+        if o['single'] is not False:          # True -> token 1; 0 -> `single=False` passed explicitly
+            kw.append(['single', 1 if o['single'] is True else int(o['single'])])
+        o['kwargs'] = kw
+    return o
+
+
+def tok2py(v):
+    """keyword value token -> Python value (0 and 1 are the flags False / True)"""
+    return bool(v) if v in (0, 1) else v
 
 
 def impl(case):
@@ -65,60 +104,80 @@ def impl(case):
             def __len__(self):
                 return 0
 
-        senders = {'plain': [object(), object()], 'falsy': [EmptySender(), EmptySender()],
-                   'mixed': [object(), EmptySender()]}[case.get('senders', 'plain')]
+        class EqSender(object):
+            """senders that are equal without being identical"""
+            def __init__(self, v):
+                self.v = v
+
+            def __eq__(self, other):
+                return isinstance(other, EqSender) and other.v == self.v
+
+            def __hash__(self):
+                return hash(self.v)
+
+        mode = case.get('senders', 'plain')
+        fixed = {'plain': [object(), object()], 'falsy': [EmptySender(), EmptySender()],
+                 'mixed': [object(), EmptySender()], 'equal': None}[mode]
+        made = []       # every sender object handed to the emitter, with its token
+
+        def sender_obj(i):
+            ob = EqSender(i) if mode == 'equal' else fixed[i]      # 'equal': a fresh equal instance every time
+            made.append((ob, i))
+            return ob
         log = []
 
         class Owner(object):
             pass
         owners = {}
 
-        def make_cb(cid, event, owner):
+        def make_cb(cid, fname, owner):
             def body(sender, *args, **kwargs):
                 log.append((cid, sender, args, dict(kwargs)))
-                return cid
+                idx = [i for ob, i in made if ob is sender]
+                return 1000 * cid + 10 * (idx[-1] if idx else 99) + len(args)       # Spec.stubResult
             if owner is None:
                 fn = body
-                fn.__name__ = 'on_e%d' % event
+                fn.__name__ = fname
                 return fn
             o = owners.setdefault(owner, Owner())
             import types
 
             def meth(self, sender, *args, **kwargs):
                 return body(sender, *args, **kwargs)
-            meth.__name__ = 'on_e%d' % event
+            meth.__name__ = fname
             return types.MethodType(meth, o)
-        cbs = {}    # id -> list of callables created for that id (same function object per id)
+        cbs = {}    # (id, function name, owner) -> callable (same function object per key)
         cms = []
         outs = []
-        for o in case['ops']:
+        for o in map(norm, case['ops']):
             k = o['k']
             if k == 'connect':
-                key = (o['id'], o['event'], o['owner'])
+                key = (o['id'], o['fname'], o['owner'])
                 if key not in cbs:
-                    cbs[key] = make_cb(o['id'], o['event'], o['owner'])
+                    cbs[key] = make_cb(o['id'], o['fname'], o['owner'])
                 f = cbs[key]
                 kw = {}
                 if o['last']:
                     kw['last'] = True
                 if o['sender'] is not None:
-                    kw['sender'] = senders[o['sender']]
-                if not o['byname']:
-                    kw['event'] = 'e%d' % o['event']
+                    kw['sender'] = sender_obj(o['sender'])
+                if o['event_arg'] is not None:
+                    kw['event'] = o['event_arg']
                 style = case.get('connect_style', 'direct')
-                if style == 'direct':
-                    ev.connect(f, **kw)
-                elif style == 'decorator_args' and kw:
-                    ev.connect(**kw)(f)          # @ev.connect(event=..., sender=..., last=...)
-                else:
-                    ev.connect(f, **kw)
+                try:
+                    if style == 'decorator_args' and kw:
+                        ev.connect(**kw)(f)          # @ev.connect(event=..., sender=..., last=...)
+                    else:
+                        ev.connect(f, **kw)
+                except ValueError:
+                    pass                              # function name is not on_<event>: nothing registered
             elif k == 'unconnect':
                 items = []
                 for it in o['items']:
                     if 'cb' in it:
-                        items += [f for (cid, e, ow), f in cbs.items() if cid == it['cb']]
+                        items += [f for (cid, fn, ow), f in cbs.items() if cid == it['cb']]
                     elif it['obj'] in (0, 1):
-                        items.append(senders[it['obj']])
+                        items.append(sender_obj(it['obj']))
                     else:
                         items.append(owners.setdefault(it['obj'], Owner()))
                 ev.unconnect(*items)
@@ -134,54 +193,93 @@ def impl(case):
                 cms.pop().__exit__(None, None, None)
             elif k == 'emit':
                 del log[:]
-                kw = dict(key='K%d' % len(outs))
-                if o['single']:
-                    kw['single'] = True
-                ret = ev.emit('e%d' % o['event'], senders[o['sender']], 'A', 42, **kw)
-                passed = all(s is senders[o['sender']] and a == ('A', 42) and kk == dict(key='K%d' % len(outs))
-                             for (_, s, a, kk) in log)
+                sent = sender_obj(o['sender'])
+                ret = ev.emit(o['event'], sent, *o['args'], **{kk: tok2py(v) for kk, v in o['kwargs']})
                 if ret is None:
                     r = None
                 elif isinstance(ret, list):
                     r = list(ret)
                 else:
                     r = {'one': ret}
-                outs.append(dict(calls=[c for (c, _, _, _) in log], ret=r, passed=passed))
+                # what each callback received: the sender is reported by its token only when it IS the
+                # emitted object (99 otherwise)
+                calls = [[c, (o['sender'] if sd is sent else 99), list(a),
+                          sorted([kk, int(v)] for kk, v in kw.items())] for (c, sd, a, kw) in log]
+                outs.append(dict(calls=calls, ret=r))
         return dict(outs=outs, silent=bool(ev.is_silent))
+    if case['op'] == 'connect_name':
+        res = []
+        for name in case['names']:
+            ev = EV.EventEmitter()
+            hit = []
+
+            def f(sender, *a, **k):
+                hit.append(1)
+            f.__name__ = name
+            try:
+                ev.connect(f)
+            except ValueError:
+                res.append(None)
+                continue
+            # observe the registered event through emit: every substring of the name is tried
+            subs = sorted({name[i:j] for i in range(len(name) + 1) for j in range(i, len(name) + 1)})
+            got = []
+            for e in subs:
+                del hit[:]
+                ev.emit(e, None)
+                if hit:
+                    got.append(e)
+            res.append(got)
+        return res
     if case['op'] == 'reporter':
         EV.reset()
         EV.set_silent(False)
         pr = EV.ProgressReporter()
         got = []
-        EV.connect(lambda sender, value, value_max, **kw: got.append(('p', value, value_max)),
+        EV.connect(lambda sender, value, value_max, **kw: got.append(('p', value, value_max, kw, sender)),
                    event='progress', sender=pr)
-        EV.connect(lambda sender, **kw: got.append(('c',)), event='complete', sender=pr)
+        EV.connect(lambda sender, **kw: got.append(('c', None, None, kw, sender)), event='complete', sender=pr)
         steps = []
-        for o in case['ops']:
+        for n, o in enumerate(case['ops']):
             del got[:]
             mb = pr.value_max
             k = o['k']
+            kw = dict(tag=n) if case.get('kw') and k in ('inc', 'complete') else {}
             if k == 'inc':
-                pr.increment()
+                pr.increment(**kw)
             elif k == 'set':
                 pr.value = o['v']
             elif k == 'max':
                 pr.value_max = o['m']
             elif k == 'complete':
-                pr.set_complete()
+                pr.set_complete(**kw)
             elif k == 'reset':
                 pr.reset(o['m']) if o['m'] is not None else pr.reset()
             prog = [g for g in got if g[0] == 'p']
             steps.append(dict(progress=[prog[0][1], prog[0][2]] if prog else None, n_progress=len(prog),
                               n_complete=len([g for g in got if g[0] == 'c']),
                               value=pr.value, max=pr.value_max, max_before=mb,
-                              order_ok=(not got or got[0][0] == 'p' or not prog)))
+                              passed=all(g[3] == kw and g[4] is pr for g in got)))
         EV.reset()
         return steps
     raise ValueError(case['op'])
 
 
+def lean_op(o):
+    o = norm(o)
+    if o['k'] == 'connect':
+        return dict(k='connect', fname=o['fname'], event=o['event_arg'], sender=o['sender'], id=o['id'],
+                    owner=o['owner'], last=o['last'])
+    if o['k'] == 'emit':
+        return dict(k='emit', event=o['event'], sender=o['sender'], args=o['args'], kwargs=o['kwargs'])
+    return o
+
+
 def model_query(case, impl_res):
+    if case['op'] == 'connect_name':
+        return dict(p=PID, op='connect_name', names=case['names'])
+    if case['op'] == 'emitter':
+        return dict(p=PID, op='emitter', ops=[lean_op(o) for o in case['ops']])
     q = dict(p=PID, op=case['op'], ops=case['ops'])
     if case['op'] == 'reporter' and 'ok' in impl_res:
         obs = []
@@ -203,17 +301,30 @@ def judge(case, impl_res, ans):
     if case['op'] == 'emitter':
         if m['model'] != m['spec']:
             return 'MACHINERY: model differs from its Lean spec (contradicts the theorem)'
+        if m['silent'] != m['silent_spec']:
+            return 'MACHINERY: model silence flag differs from its Lean spec (contradicts the theorem)'
         if len(ok['outs']) != len(m['spec']):
             return 'MACHINERY: number of emits'
         for i, (o, s) in enumerate(zip(ok['outs'], m['spec'])):
-            if not o['passed']:
-                return 'SPEC: emit %d: sender/arguments not passed through unchanged' % i
-            if o['calls'] != s['calls']:
-                return 'SPEC: emit %d: called %s, expected %s' % (i, o['calls'], s['calls'])
+            exp = [[c[0], c[1], c[2], sorted(c[3])] for c in s['calls']]
+            if [c[0] for c in o['calls']] != [c[0] for c in exp]:
+                return 'SPEC: emit %d: called %s, expected %s' % (i, [c[0] for c in o['calls']], [c[0] for c in exp])
+            if o['calls'] != exp:
+                return ('SPEC: emit %d: sender/arguments not passed through unchanged: callbacks received %s, '
+                        'expected %s' % (i, o['calls'], exp))
             if o['ret'] != s['ret']:
                 return 'SPEC: emit %d: returned %s, expected %s' % (i, o['ret'], s['ret'])
         if ok['silent'] != m['silent']:
             return 'CORR: final silent flag differs from the model'
+        return None
+    if case['op'] == 'connect_name':
+        for name, got, exp in zip(case['names'], ok, m['events']):
+            if (got is None) != (exp is None):
+                return 'SPEC: connect of a function named %r: %s, expected %s' % (
+                    name, 'raised ValueError' if got is None else 'registered for %s' % got,
+                    'ValueError' if exp is None else 'event %r' % exp)
+            if got is not None and got != [exp]:
+                return 'SPEC: a function named %r is called for the events %s, expected [%r]' % (name, got, exp)
         return None
     if case['op'] == 'reporter':
         if m['model_spec'] is not True:
@@ -221,6 +332,8 @@ def judge(case, impl_res, ans):
         for i, s in enumerate(ok):
             if s['n_complete'] > 1 or s['n_progress'] > 1:
                 return 'SPEC: step %d: more than one complete/progress event for one update' % i
+            if not s['passed']:
+                return 'SPEC: step %d: the reporter / keyword arguments were not passed through unchanged' % i
         if m['impl_spec'] is not True:
             return 'SPEC: completion announcements violate the once-per-crossing rule'
         for i, (s, mm) in enumerate(zip(ok, m['model'])):
@@ -231,6 +344,8 @@ def judge(case, impl_res, ans):
 
 
 def nontrivial(case):
+    if case['op'] == 'connect_name':
+        return True
     ops = case['ops']
     if case['op'] == 'emitter':
         seen_connect = False
@@ -244,24 +359,36 @@ def nontrivial(case):
 
 
 def tally(rep, case, impl_res, ans):
+    rep.count('op:' + case['op'])
+    if case['op'] == 'connect_name':
+        return
+    rep.count('len:%d' % min(len(case['ops']), 8))
     if case['op'] == 'emitter':
         rep.count('senders:' + case.get('senders', 'plain'))
         rep.count('connect_style:' + case.get('connect_style', 'direct'))
-    rep.count('op:' + case['op'])
-    rep.count('len:%d' % min(len(case['ops']), 8))
-    if case['op'] == 'emitter':
         d = mx = 0
+        inside = raises = False
         for o in case['ops']:
             if o['k'] == 'enter':
                 d += 1; mx = max(mx, d)
             elif o['k'] == 'exit':
                 d -= 1
+            elif o['k'] == 'set_silent' and d > 0:
+                inside = True
+            elif o['k'] == 'connect' and o.get('fname') in ('spam', 'on_'):
+                raises = True
         rep.count('max_silent_depth:%d' % mx)
+        if inside:
+            rep.count('set_silent_inside_context')
+        if raises:
+            rep.count('connect_raises')
     elif 'ok' in impl_res:
         rep.count('completions:%d' % min(3, sum(s['n_complete'] for s in impl_res['ok'])))
 
 
 def classify(case, impl_res, ans, why):
+    if case['op'] == 'connect_name':
+        return dict(op=case['op'], kind=why.split(':')[0])
     ks = [o['k'] for o in case['ops']]
     return dict(op=case['op'], kind=why.split(':')[0], nested=ks.count('enter') >= 2,
                 set_silent_then_context=('set_silent' in ks and 'enter' in ks),
@@ -269,6 +396,12 @@ def classify(case, impl_res, ans, why):
 
 
 def shrink(case):
+    if case['op'] == 'connect_name':
+        for i in range(len(case['names'])):
+            c = dict(case); c['names'] = case['names'][:i] + case['names'][i + 1:]
+            if c['names']:
+                yield c
+        return
     ops = case['ops']
     for i in range(len(ops)):
         c = dict(case); c['ops'] = ops[:i] + ops[i + 1:]
@@ -289,21 +422,29 @@ def gen(tier, rng):
     for L in range(1, LR + 1):
         for ops in itertools.product(R_ALPHA, repeat=L):
             yield dict(p=PID, op='reporter', ops=[dict(o) for o in ops])
+    # event name derived from the function name (connect without event=)
+    names = ['on_e0', 'on_', 'on', 'spam', 'on_x_y', 'On_e', 'on_é', '_on_e', 'on__', 'on_ e', 'on_a\n', 'on_a\nb',
+             'on_\n', 'on_on_', 'xon_e', 'on_e ', 'o', '']
+    yield dict(p=PID, op='connect_name', names=names)
+    for _ in range(20 if q else 400):
+        yield dict(p=PID, op='connect_name',
+                   names=[''.join(rng.pick(['o', 'n', '_', 'e', 'on_', 'x', '\n', ' ', 'O']) for _ in range(rng.randrange(0, 6)))
+                          for _ in range(8)])
+    alpha = E_ALPHA + E_EXTRA
     for _ in range(6000 if q else 150000):
         if rng.random() < .6:
             L = rng.randrange(4, 14)
             ops, d = [], 0
             for _ in range(L):
                 while True:
-                    o = rng.pick(E_ALPHA)
+                    o = rng.pick(alpha)
                     if o['k'] == 'exit' and d == 0:
-                        continue
-                    if o['k'] == 'set_silent' and d != 0:
                         continue
                     break
                 d += (o['k'] == 'enter') - (o['k'] == 'exit')
                 ops.append(dict(o))
-            yield dict(p=PID, op='emitter', ops=ops, senders=rng.pick(['plain', 'falsy', 'mixed']),
+            yield dict(p=PID, op='emitter', ops=ops, senders=rng.pick(['plain', 'falsy', 'mixed', 'equal']),
                        connect_style=rng.pick(['direct', 'decorator_args']))
         else:
-            yield dict(p=PID, op='reporter', ops=[dict(rng.pick(R_ALPHA)) for _ in range(rng.randrange(3, 12))])
+            yield dict(p=PID, op='reporter', ops=[dict(rng.pick(R_ALPHA)) for _ in range(rng.randrange(3, 12))],
+                       kw=rng.random() < .5)
